@@ -27,6 +27,8 @@ func PDFDoc() pdfw.Doc {
 			l(90, 628, 10, "Indented block second line tango uniform victor whiskey xray."),
 			l(72, 590, 12, "- first bullet item of a list"),
 			l(72, 576, 12, "- second bullet item of a list"),
+			l(72, 540, 12, "Hello"),
+			l(105, 540, 12, "World"),
 		}},
 		{Lines: []pdfw.Line{
 			l(72, 720, 12, "Second page text yankee zulu one two three four five six seven."),
@@ -75,6 +77,16 @@ func PDFTies() []byte {
 	}}, {Lines: []pdfw.Line{
 		l(200, 720, 9, "Tiny Centered Caption"),
 		l(72, 660, 18, "INTRODUCTION"),
+	}}}}
+	return pdfw.Write(d, pdfw.Layout{}).Bytes
+}
+
+// PDFWidths: a Standard-14 base font (Helvetica) that brings its own /Widths array.
+func PDFWidths() []byte {
+	d := pdfw.Doc{Name: "widths", Pages: []pdfw.Page{{Lines: []pdfw.Line{
+		{Font: pdfw.Type1Widths, Text: "Wide metrics line one", X: 72, Y: 700, Size: 12},
+		{Font: pdfw.Type1Widths, Text: "AVA", X: 72, Y: 680, Size: 12},
+		{Font: pdfw.Type1Widths, Text: "tail", X: 190, Y: 680, Size: 12},
 	}}}}
 	return pdfw.Write(d, pdfw.Layout{}).Bytes
 }
@@ -159,7 +171,7 @@ func Named() []struct {
 		Name string
 		Data []byte
 	}{
-		{"a.pdf", PDF()}, {"pending.pdf", PDFPending()}, {"broken.pdf", PDFBroken()}, {"stream.pdf", PDFStream()}, {"ties.pdf", PDFTies()},
+		{"a.pdf", PDF()}, {"pending.pdf", PDFPending()}, {"broken.pdf", PDFBroken()}, {"stream.pdf", PDFStream()}, {"ties.pdf", PDFTies()}, {"widths.pdf", PDFWidths()},
 		{"a.docx", DOCX()}, {"a.odt", ODT()}, {"a.xlsx", XLSX()}, {"a.pptx", PPTX()}, {"a.epub", EPUB3()}, {"b.epub", EPUB2()}, {"a.html", HTML()},
 	}
 }
